@@ -1,0 +1,25 @@
+//go:build verif
+
+package ignorefiles
+
+// Contracts for the govc verifier (see /verif/DESIGN.md). This file contains
+// comments only; it is compiled only with the "verif" build tag.
+
+//@ func readRules -> (rules, err)
+//@   sweep
+//@   ghost $line String = ""
+//@   replay ignoreLine: line=$line
+
+//@ func (*rule).compile -> (err)
+//@   sweep
+//@   requires pre.r: r != nil
+
+//@ func (*rule).match -> (ok, err)
+//@   sweep
+//@   requires pre.r: r != nil
+
+//@ func (*Ruleset).Excludes -> (res, err)
+//@   sweep
+
+//@ func ParseIgnoreFileContent -> (rs, err)
+//@   sweep
